@@ -56,6 +56,7 @@ void Item::set(int v) { Guard g; if (m_magic != MAGIC) sim_event("BADMAGIC set")
 int Item::ident() const { Guard g; return m_id; }
 const std::string &Item::label() const { Guard g; return m_label; }
 int Item::combine(const Item &other) const { Guard g; if (m_magic != MAGIC || other.m_magic != MAGIC) sim_event("BADMAGIC combine"); return m_value * 3 + other.m_value; }
+int Item::addAll(const std::vector<int> &v) const { Guard g; if (m_magic != MAGIC) sim_event("BADMAGIC addAll"); int s = m_value; for (size_t i = 0; i < v.size(); i++) s += v[i]; return s; }
 Item *Item::twin() { Guard g; return new Item(m_value + 1000); }
 
 // ---------------------------------------------------------------- Box (destructor not wrapped)
@@ -210,6 +211,7 @@ int *arrNewPat(int n, int *len) {
 void arrFillOut(int n, double *out) { Guard g; for (int i = 0; i <= n; i++) out[i] = 0.5 * i; }
 int arrSum(const int *arr, int n) { Guard g; int s = 0; for (int i = 0; i < n; i++) s += arr[i]; return s + 1000000 * n; }
 void arrWeights(int *values, int nvalues, const int *weights, int nweights) { Guard g; for (int i = 0; i < nvalues; i++) values[i] *= (nweights > 0 ? weights[i % nweights] : 1); }
+int arrSumD(const double *arr, int n) { Guard g; double s = 0; for (int i = 0; i < n; i++) s += arr[i]; return static_cast<int>(s * 2) + 1000 * n; }
 void charGrow(char *s) { Guard g; std::strcat(s, "!!"); }
 int charArrLen(char **names, int n) { Guard g; int t = 0; for (int i = 0; i < n; i++) { if (names[i]) t += static_cast<int>(std::strlen(names[i])) + 100; else t += 50; } return t; }
 int charArrTwo(char **a, int na, char **b, int nb) { Guard g; return charArrLen(a, na) * 3 + charArrLen(b, nb); }
